@@ -244,6 +244,18 @@ pub fn corr(ctx: &mut Ctx) {
             if d.dump() != snap {
                 ctx.oracle_failure(serde_json::json!({"kind":"impl_violates_property","what":"end_sketch is not idempotent","alg":alg,"m":m,"n":n}));
             }
+            // an empty slice on a finished sketch: Ok and no change; on an unfinished one: finishes it
+            let ok0 = d.sketch_slice(&[]);
+            ctx.line(&format!("dens slice{} a {}", sfx, alg), if ok0 { "ok" } else { "ERR" });
+            if !ok0 || d.dump() != snap {
+                ctx.oracle_failure(serde_json::json!({"kind":"impl_violates_property","what":"sketch_slice(&[]) on a finished sketch fails or changes it","alg":alg,"m":m,"n":n}));
+            }
+            let mut d4 = D::new(kind, m);
+            for x in &stream { d4.sketch(x); }
+            let ok4 = d4.sketch_slice(&[]);
+            if !ok4 || d4.dump() != snap {
+                ctx.oracle_failure(serde_json::json!({"kind":"impl_violates_property","what":"item-wise sketch + sketch_slice(&[]) differs from item-wise sketch + end_sketch","alg":alg,"sfx":sfx,"m":m,"n":n}));
+            }
             // sketch_slice == item-wise + end_sketch ; set semantics of the finished sketch
             let mut d2 = D::new(kind, m);
             let ok = d2.sketch_slice(&stream);
@@ -295,9 +307,12 @@ pub fn corr(ctx: &mut Ctx) {
                     ctx.count("op=end_sketch");
                 }
                 2 => {
-                    let k = 1 + ctx.rng.below(3) as usize;
+                    // 0..3 items: an EMPTY slice after items were streamed must just finish the sketch
+                    let k = ctx.rng.below(4) as usize;
+                    if k == 0 && !streamed { continue; } // the truly empty stream runs in a child process below
                     let sl: Vec<u64> = (0..k).map(|_| *ctx.rng.pick(&items)).collect();
                     let ok = d.sketch_slice(&sl);
+                    if k == 0 { ctx.count("op=sketch_slice(empty) after items"); }
                     streamed = true;
                     ctx.line(&format!("dens slice{} a {} {}", sfx, alg, sl.iter().map(|x| hx(hash_with::<FnvHasher, u64>(x))).collect::<Vec<_>>().join(" ")), if ok { "ok" } else { "ERR" });
                     ctx.count("op=sketch_slice");
